@@ -127,17 +127,17 @@ Proof.
       rewrite !opp_IZR in *. lra.
 Qed.
 
-Lemma sat_i64_spec (L : bf) : BinarySingleNaN.is_finite L = true -> 0 <= B2R L < IZR (2 ^ 62) ->
+Lemma sat_i64_spec (L : bf) : BinarySingleNaN.is_finite L = true -> 0 <= B2R L < IZR (2 ^ 63) ->
   IZR (sat_i64 (B2SF L)) <= B2R L < IZR (sat_i64 (B2SF L)) + 1.
 Proof.
   intros Hf Hr.
   pose proof (floor_cmp_spec L 0 Hf ltac:(lra)) as Hb. cbn [bpow] in Hb. rewrite Rmult_1_r in Hb.
   assert (Hfl : sat_i64 (B2SF L) = floor_cmp 0 (B2SF L)); [|rewrite Hfl; exact Hb].
   assert (H0 : (-1 < floor_cmp 0 (B2SF L))%Z) by (apply lt_IZR; rewrite <- (Rplus_0_r (IZR (-1))); change (IZR (-1)) with (-1); lra).
-  assert (H1 : (floor_cmp 0 (B2SF L) < 2 ^ 62)%Z) by (apply lt_IZR; lra).
+  assert (H1 : (floor_cmp 0 (B2SF L) < 2 ^ 63)%Z) by (apply lt_IZR; lra).
   destruct (nonneg_shape L Hf ltac:(lra)) as [(s & ->)|(m & e & H & ->)]; [reflexivity|].
   cbn [B2SF floor_cmp] in *. unfold sat_i64. cbn [trunc_Z]. rewrite Z.add_0_r in *.
-  change (2 ^ 63)%Z with 9223372036854775808%Z. change (2 ^ 62)%Z with 4611686018427387904%Z in H1.
+  change (2 ^ 63)%Z with 9223372036854775808%Z in *.
   destruct (0 <=? e)%Z; lia.
 Qed.
 
@@ -392,7 +392,7 @@ Ltac z_of_r_le := apply le_IZR; repeat rewrite ?plus_IZR, ?minus_IZR, ?mult_IZR,
 
 (* i64 weights: one unit of slack absorbs the truncation; the float error stays
    below 1/200 unit for totals below 2^46 *)
-Theorem thr_ok_flocq_i64 T : (0 <= T < 2 ^ 46)%Z -> thr_ok_b I64 gridrcb_tolerance_bits T = true.
+Lemma thr_ok_flocq_i64_small T : (0 <= T < 2 ^ 46)%Z -> thr_ok_b I64 gridrcb_tolerance_bits T = true.
 Proof.
   intros HT. assert (HT53 : (0 <= T < 2 ^ 53)%Z) by lia.
   unfold thr_ok_b. rewrite (thresholds_B I64 T).
@@ -403,7 +403,7 @@ Proof.
     by (split; [apply (IZR_le 0)|apply (IZR_lt _ 70368744177664)]; lia).
   set (t := IZR T) in *.
   set (lo := B2R (LO T 0)) in *. set (hi := B2R (HI T 0)) in *.
-  assert (H62 : IZR (2 ^ 62) = 4611686018427387904) by reflexivity.
+  assert (H62 : IZR (2 ^ 63) = 9223372036854775808) by reflexivity.
   pose proof (sat_i64_spec (LO T 0) Hlf ltac:(fold lo; rewrite H62; lra)) as Ha.
   pose proof (sat_i64_spec (HI T 0) Hhf ltac:(fold hi; rewrite H62; lra)) as Hb.
   fold lo in Ha. fold hi in Hb.
@@ -414,9 +414,134 @@ Proof.
   assert (F4 : (T < 2 * b + 2)%Z) by (z_of_r; fold t; lra).
   assert (F5 : (99 * T - 201 < 200 * a)%Z) by (z_of_r; fold t; lra).
   assert (F6 : (200 * b < 101 * T + 201)%Z) by (z_of_r; fold t; lra).
-  unfold band_ok_b. rewrite !andb_true_iff, !Z.leb_le. lia.
+  unfold band_ok_b. destruct (Z.ltb_spec T (2 ^ 46)) as [_|]; [|lia].
+  rewrite !andb_true_iff, !Z.leb_le. lia.
 Qed.
 
+(* ---------- i64 totals from 2^46 up to 2^63 ----------
+   `total as f64` is no longer exact above 2^53 and the float error of the two
+   thresholds (three roundings, each 2^-53 relative, plus the error of
+   fl(1 -+ TOLERANCE)) exceeds 1/200 unit: the "+1 unit" no longer absorbs it.
+   What holds is 1% * (1 + 2^-40) + 1 unit. *)
+Lemma le_bpow1000' z : Rabs z <= IZR (2 ^ 70) -> Rabs z <= bpow radix2 1000.
+Proof.
+  intros H. apply Rle_trans with (1 := H). rewrite <- bpow_nonneg_Z by lia. apply bpow_le. lia.
+Qed.
+
+Lemma norm_fin T : Rabs (IZR T) <= IZR (2 ^ 69) ->
+  B2R (X T 0) = rnd (IZR T) /\ BinarySingleNaN.is_finite (X T 0) = true.
+Proof.
+  intros Hb.
+  pose proof (binary_normalize_correct prec emax Hprec Hmax mode_NE T 0 false) as H.
+  cbv zeta in H. change (binary_normalize prec emax Hprec Hmax mode_NE T 0 false) with (X T 0) in H.
+  assert (Hx : F2R (Float radix2 T 0) = IZR T) by (unfold F2R; cbn [Fnum Fexp bpow]; lra).
+  rewrite Hx in H. rewrite Rlt_bool_true in H.
+  - destruct H as (H1 & H2 & _). auto.
+  - apply round_lt_emax. apply le_bpow1000'. apply Rle_trans with (1 := Hb). apply IZR_le. lia.
+Qed.
+
+Lemma div2_fin (A : bf) : BinarySingleNaN.is_finite A = true -> Rabs (B2R A) <= IZR (2 ^ 70) ->
+  B2R (Bdiv mode_NE A TWO) = rnd (B2R A / 2) /\ BinarySingleNaN.is_finite (Bdiv mode_NE A TWO) = true.
+Proof.
+  intros Hf Hb.
+  pose proof (Bdiv_correct prec emax Hprec Hmax mode_NE A TWO ltac:(rewrite B2R_TWO; lra)) as H.
+  rewrite B2R_TWO in H. rewrite Rlt_bool_true in H.
+  - destruct H as (H1 & H2 & _). rewrite Hf in H2. auto.
+  - apply round_lt_emax. apply le_bpow1000'. unfold Rdiv. rewrite Rabs_mult.
+    rewrite (Rabs_pos_eq (/ 2)) by lra. pose proof (Rabs_pos (B2R A)). lra.
+Qed.
+
+Lemma mult_fin (A C : bf) : BinarySingleNaN.is_finite A = true -> BinarySingleNaN.is_finite C = true ->
+  Rabs (B2R A * B2R C) <= IZR (2 ^ 70) ->
+  B2R (Bmult mode_NE A C) = rnd (B2R A * B2R C) /\ BinarySingleNaN.is_finite (Bmult mode_NE A C) = true.
+Proof.
+  intros Hf Hc Hb.
+  pose proof (Bmult_correct prec emax Hprec Hmax mode_NE A C) as H. rewrite Rlt_bool_true in H.
+  - destruct H as (H1 & H2 & _). rewrite Hf, Hc in H2. auto.
+  - apply round_lt_emax. apply le_bpow1000'. exact Hb.
+Qed.
+
+Lemma bpow_m1022_small x : / 4 <= x -> bpow radix2 (-1022) <= x.
+Proof.
+  intros H. apply Rle_trans with (bpow radix2 (-2)); [apply bpow_le; lia|].
+  change (bpow radix2 (-2)) with (/ 4). exact H.
+Qed.
+
+Section Big.
+  Variable T : Z.
+  Hypothesis HT : (1 <= T < 2 ^ 63)%Z.
+  Notation u := (/ 9007199254740992).
+  Notation c99 := (8917127262193582 / 9007199254740992).
+  Notation c101 := (4548635623644201 / 4503599627370496).
+  Let t := IZR T.
+  Let Ht : 1 <= t < 9223372036854775808.
+  Proof. unfold t. split; [apply (IZR_le 1)|apply (IZR_lt _ 9223372036854775808)]; lia. Qed.
+
+  (* lo, hi within (1 -+ u)^3 of t/2 * c99, t/2 * c101 *)
+  Lemma big_ok :
+    BinarySingleNaN.is_finite (LO T 0) = true /\ BinarySingleNaN.is_finite (HI T 0) = true /\
+    t / 2 * c99 * ((1 - u) * (1 - u) * (1 - u)) <= B2R (LO T 0) <= t / 2 * c99 * ((1 + u) * (1 + u) * (1 + u)) /\
+    t / 2 * c101 * ((1 - u) * (1 - u) * (1 - u)) <= B2R (HI T 0) <= t / 2 * c101 * ((1 + u) * (1 + u) * (1 + u)).
+  Proof.
+    assert (H69 : IZR (2 ^ 69) = 590295810358705651712) by reflexivity.
+    assert (H70 : IZR (2 ^ 70) = 1180591620717411303424) by reflexivity.
+    destruct (norm_fin T ltac:(fold t; rewrite Rabs_pos_eq by lra; rewrite H69; lra)) as (Hx & Hxf).
+    fold t in Hx. pose proof (rel_err 0%nat ltac:(lia) t ltac:(apply bpow_m1022_small; lra)) as Ex.
+    set (x := B2R (X T 0)) in *. rewrite <- Hx in Ex.
+    destruct (div2_fin (X T 0) Hxf ltac:(fold x; rewrite Rabs_pos_eq by lra; rewrite H70; lra)) as (Hi & Hif).
+    fold (IDEAL T 0) in Hi, Hif. fold x in Hi.
+    pose proof (rel_err 0%nat ltac:(lia) (x / 2) ltac:(apply bpow_m1022_small; lra)) as Ei.
+    set (i := B2R (IDEAL T 0)) in *. rewrite <- Hi in Ei.
+    assert (Hi0 : 0 <= i) by lra.
+    destruct (mult_fin (IDEAL T 0) C99 Hif eq_refl
+                ltac:(fold i; rewrite B2R_C99; rewrite Rabs_pos_eq by nra; rewrite H70; nra)) as (Hl & Hlf).
+    destruct (mult_fin (IDEAL T 0) C101 Hif eq_refl
+                ltac:(fold i; rewrite B2R_C101; rewrite Rabs_pos_eq by nra; rewrite H70; nra)) as (Hh & Hhf).
+    fold (LO T 0) in Hl, Hlf. fold (HI T 0) in Hh, Hhf. fold i in Hl, Hh.
+    rewrite B2R_C99 in Hl. rewrite B2R_C101 in Hh.
+    pose proof (rel_err 0%nat ltac:(lia) (i * c99) ltac:(apply bpow_m1022_small; lra)) as El.
+    pose proof (rel_err 0%nat ltac:(lia) (i * c101) ltac:(apply bpow_m1022_small; lra)) as Eh.
+    rewrite <- Hl in El. rewrite <- Hh in Eh.
+    split; [exact Hlf|]. split; [exact Hhf|].
+    set (lo := B2R (LO T 0)) in *. set (hi := B2R (HI T 0)) in *.
+    (* chain the three relative errors: all linear with constant coefficients *)
+    assert (A1 : t * (1 - u) / 2 * (1 - u) <= i) by lra.
+    assert (A2 : i <= t * (1 + u) / 2 * (1 + u)) by lra.
+    split; split; lra.
+  Qed.
+
+  Lemma thr_ok_big : (2 ^ 46 <= T)%Z -> thr_ok_b I64 gridrcb_tolerance_bits T = true.
+  Proof.
+    intros H46. unfold thr_ok_b. rewrite (thresholds_B I64 T).
+    destruct big_ok as (Hlf & Hhf & (Hl1 & Hl2) & (Hh1 & Hh2)).
+    set (lo := B2R (LO T 0)) in *. set (hi := B2R (HI T 0)) in *.
+    assert (H63 : IZR (2 ^ 63) = 9223372036854775808) by reflexivity.
+    pose proof (sat_i64_spec (LO T 0) Hlf ltac:(fold lo; rewrite H63; lra)) as Ha.
+    pose proof (sat_i64_spec (HI T 0) Hhf ltac:(fold hi; rewrite H63; lra)) as Hb.
+    fold lo in Ha. fold hi in Hb.
+    set (a := sat_i64 (B2SF (LO T 0))) in *. set (b := sat_i64 (B2SF (HI T 0))) in *.
+    assert (F1 : (-1 < b)%Z) by (z_of_r; change (IZR (-1)) with (-1); lra).
+    assert (F2 : (a < b + 2)%Z) by (z_of_r; lra).
+    assert (F3 : (2 * a < T + 2)%Z) by (z_of_r; fold t; lra).
+    assert (F4 : (T < 2 * b + 2)%Z) by (z_of_r; fold t; lra).
+    assert (F5 : (1099511627776 * (100 * (T - 2 * a)) < 1099511627777 * T + 1099511627776 * 200 + 1)%Z)
+      by (z_of_r; fold t; lra).
+    assert (F6 : (1099511627776 * (100 * (2 * b - T)) < 1099511627777 * T + 1099511627776 * 200 + 1)%Z)
+      by (z_of_r; fold t; lra).
+    unfold band_ok_b. destruct (Z.ltb_spec T (2 ^ 46)) as [|_]; [lia|].
+    change (2 ^ 40)%Z with 1099511627776%Z.
+    rewrite !andb_true_iff, !Z.leb_le. lia.
+  Qed.
+End Big.
+
+(* i64 weights, every total below 2^63 (the clause is the strict "1% + 1 unit"
+   below 2^46 and "1% * (1 + 2^-40) + 1 unit" from 2^46 on: band_i64) *)
+Theorem thr_ok_flocq_i64 T : (0 <= T < 2 ^ 63)%Z -> thr_ok_b I64 gridrcb_tolerance_bits T = true.
+Proof.
+  intros HT. destruct (Z.ltb_spec T (2 ^ 46)) as [Hs|Hb].
+  - apply thr_ok_flocq_i64_small. lia.
+  - apply thr_ok_big; lia.
+Qed.
 (* f64 weights z * 2^-k: no unit; the thresholds are within a relative 2^-40
    (in fact 2^-46) of 0.99 / 1.01 times half the total, for every total below 2^53 *)
 Theorem thr_ok_flocq_f64 k T : (k <= 1000)%nat -> (0 <= T < 2 ^ 53)%Z ->
@@ -455,7 +580,7 @@ From Coupe Require Import Proofs.GridRcbTree Proofs.GridRcbChecker Proofs.GridRc
 (* the totals covered for a weight type *)
 Definition total_ok (fw : wty) (tot : Z) : Prop :=
   match fw with
-  | I64 => (tot < 2 ^ 46)%Z
+  | I64 => (tot < 2 ^ 63)%Z
   | F64 k => (k <= 1000)%nat /\ (tot < 2 ^ 53)%Z
   end.
 
